@@ -482,15 +482,38 @@ def do_check(pid, cfg, tier, seed):
     model_diffs, spec_diffs, known_hits = [], [], {}
     domain = cfg.get("spec_domain")
     for (op, impl, model, spec) in results:
+        if domain is not None and not domain(op):
+            continue
+        key = classify(pid, cfg, op, impl, spec) if (impl != model or impl != spec) else None
+        if key and (pid, key) in known:
+            # a listed finding, identified by its key: reported as KNOWN-FINDING, not as a (model or spec) difference
+            known_hits.setdefault(key, (op, impl, spec))
+            continue
         if impl != model:
             model_diffs.append((op, impl, model, spec))
-        if spec is not None and spec != "-" and impl != spec and (domain is None or domain(op)):
-            key = classify(pid, cfg, op, impl, spec)
-            if key and (pid, key) in known:
-                known_hits.setdefault(key, (op, impl, spec))
-            else:
-                spec_diffs.append((op, impl, model, spec))
+        if spec is not None and spec != "-" and impl != spec:
+            spec_diffs.append((op, impl, model, spec))
     setup = setup_ops(results) + list(PREAMBLE)
+    # observations classified by wall-clock time (reconnect periods, heartbeat spacing) can be disturbed by load: a
+    # difference on such an op is reported only if it is still there when the scenario is run again, twice
+    flakes = []
+    if cfg.get("confirm") and spec_diffs:
+        kept = []
+        for d in spec_diffs:
+            op = d[0]
+            if not op.startswith(tuple(cfg["confirm"])) or len(kept) >= 3:
+                kept.append(d)
+                continue
+            again = []
+            for _ in range(2):
+                r, err = eval_ops([s_ for s_ in setup if needs_setup(s_, op)] + [op])
+                again.append(bool(r) and not err and r[-1][3] not in (None, "-") and r[-1][1] != r[-1][3])
+            if all(again):
+                kept.append(d)
+            else:
+                flakes.append(op[:200])
+        spec_diffs = kept
+        model_diffs = [d for d in model_diffs if d[0][:200] not in flakes]
     violation = None
     new_crashes = [c for c in crashes if (pid, c[0]) not in known]
     for c in crashes:
@@ -548,6 +571,7 @@ def do_check(pid, cfg, tier, seed):
                   samples=[dict(op=r[0][:400], impl=r[1][:300], model=r[2][:300], spec=r[3]) for r in results[:3] + results[len(results)//2:len(results)//2+2]],
                   distribution=stats, model_diffs=len(model_diffs), spec_diffs=len(spec_diffs),
                   known_findings_hit=sorted(known_hits), partial=cfg.get("partial", []),
+                  timing_flakes_not_confirmed=flakes,
                   tie_g=lp["gen"][-300:]),
               assumptions=cfg.get("assumptions", []), wall_s=round(time.time() - t0, 1),
               violations=1 if violation else 0)
